@@ -56,7 +56,10 @@ LifeOf(cfg, id) == Reg(cfg, id).life
 \* all (reg index, out index) pairs in registration order
 OutPairs(cfg) == {<<i, o>> : i \in DOMAIN cfg.regs, o \in 1..3} \cap
                  {<<i, o>> \in (DOMAIN cfg.regs) \X (1..3) : o <= NOuts(cfg.regs[i]) /\ o \notin Rm(cfg.regs[i])}
-LiveReg(cfg, id) == LET r == Reg(cfg, id) IN IsInit(r) \/ \E o \in 1..NOuts(r) : o \notin Rm(r)
+\* an initialization function (no result) is registered under the type "V" (struct{}) with its name as key; a NAMED
+\* one can therefore be removed (rm = <<1>>) and resolved by key ("V", name)
+LiveReg(cfg, id) == LET r == Reg(cfg, id) IN IF IsInit(r) THEN Rm(r) = {} ELSE \E o \in 1..NOuts(r) : o \notin Rm(r)
+VoidRegs(cfg, k) == {id \in RegIds(cfg) : IsInit(Reg(cfg, id)) /\ Reg(cfg, id).name = k /\ k # NONE /\ Rm(Reg(cfg, id)) = {}}
 LiveRegIds(cfg) == {id \in RegIds(cfg) : LiveReg(cfg, id)}
 
 \* who provides the non-group identity (t,k): <<reg id, out index>> or <<>>
@@ -203,7 +206,7 @@ DispOf(cfg, reg, out) == LET t == OutsOf(Reg(cfg, reg))[out].t IN
 
 ApplyCall(st, e) ==
     LET base == [st EXCEPT !.cur = [op |-> e.op, sc |-> e.sc, name |-> e.name, t |-> e.t, k |-> e.k, g |-> e.g,
-                                   failed |-> NONE, failedReg |-> NONE, ncl |-> 0, nclerr |-> 0, cancelled |-> FALSE,
+                                   failed |-> NONE, failedReg |-> NONE, ncl |-> 0, nclerr |-> 0, cancelled |-> FALSE, ctors |-> 0,
                                    wasOpen |-> (IF e.op \in {"build"} THEN TRUE
                                                 ELSE IF e.op = "closeprov" THEN st.phase = "built"
                                                 ELSE IsOpen(st, ScopeOfCall(e.sc))),
@@ -237,8 +240,9 @@ ApplyCtor(st, e) ==
                      THEN @ \cup {<<e.reg, j, {<<st.inst[i].reg, st.inst[i].out>> : i \in Range(e.args[j].ids) \cap InstIds(st)}>> : j \in DOMAIN e.args}
                      ELSE @,
           !.taint  = @ \/ e.outcome = "nil",
-          !.cur    = IF ~ok /\ st.cur.op # NONE /\ st.cur.failed = NONE
-                     THEN [@ EXCEPT !.failed = e.outcome, !.failedReg = e.reg] ELSE @,
+          !.cur    = IF st.cur.op = NONE THEN @
+                     ELSE IF ~ok /\ st.cur.failed = NONE
+                     THEN [@ EXCEPT !.failed = e.outcome, !.failedReg = e.reg, !.ctors = @ + 1] ELSE [@ EXCEPT !.ctors = @ + 1],
           !.clock  = @ + 1]
 
 ApplyClose(st, e) ==
@@ -458,8 +462,15 @@ GuardsRetResolve(st, e) ==
         {G("builtin_resolve", {"C18"},
            /\ err = {}
            /\ IF c.t = "prov" THEN e.res.k = "prov" ELSE e.res.k = c.t /\ e.res.s = s, NONE)}
+    ELSE IF c.t = "V" THEN
+        \* a named initialization function resolved by key: it has run when its scope was created - it is found,
+        \* and resolving it constructs nothing
+        (IF VoidRegs(cfg, c.k) # {}
+         THEN {G("initializer_found_by_key", {"C02", "C04"}, err = {} /\ e.res.k = "void", NONE),
+               G("initializer_not_run_again", {"C02"}, c.ctors = 0, NONE)}
+         ELSE {G("unregistered_not_found", {"C04", "C15", "C17"}, "notfound" \in err, NONE)})
     ELSE IF ~HasProvider(cfg, c.t, c.k) THEN
-        {G("unregistered_not_found", {"C04", "C15"}, "notfound" \in err, NONE)}
+        {G("unregistered_not_found", {"C04", "C15", "C17"}, "notfound" \in err, NONE)}
     ELSE
     LET t == ProviderOf(cfg, c.t, c.k)
         life == LifeOf(cfg, t[1])
@@ -515,7 +526,7 @@ GuardsRetCreate(st, e) ==
      G("failed_create_closes_all", {"C10", "C14"}, err # {} => AllClosed(st, {i \in created : st.inst[i].disp}), NONE),
      G("ok_create_closes_nothing", {"C10"}, err = {} => c.ncl = 0, NONE),
      G("initializers_ran_once", {"C02"}, err = {} =>
-          \A id \in RegIds(st.cfg) : (IsInit(Reg(st.cfg, id)) /\ LifeOf(st.cfg, id) = "scoped") => <<id, c.name>> \in st.okruns, NONE),
+          \A id \in LiveRegIds(st.cfg) : (IsInit(Reg(st.cfg, id)) /\ LifeOf(st.cfg, id) = "scoped") => <<id, c.name>> \in st.okruns, NONE),
      G("create_ctx_linked", {"C18"}, err = {} => e.ctxok, NONE)}
 
 GuardsRetClose(st, e) ==
